@@ -1,271 +1,29 @@
-(* E2 Coll engine -- the GHT deep join distributes over merge UP TO THE CRATE'S == (C07):
-   for tries built by the public API (PGHT.wf: distinct child keys, no empty child, leaves are
-   sets -- preserved by insert and merge, PGHT.insert_spec / merge_spec) the two sides
-     deep_join (merge a da) b     and     merge (deep_join a b) (deep_join da b)
-   have, level by level, the same keys and ==-equal children, although both may contain empty
-   children.  Lifts Lattice.PMorphGHT's `_rows_partial` to `peq ... = true`. *)
+(* E2 Coll engine -- the GHT deep join distributes over merge UP TO THE CRATE'S == (C07).
+   Since repo commit c041ccb5709, == on tries ignores children without rows, and
+   PGHT.peq_spec_w shows that == is exactly equality of the row sets on every weakly
+   well-formed trie (the outputs of a deep join are such tries: they may hold empty children).
+   So the `_rows_partial` statement of Lattice.PMorphGHT (same rows, both sides weakly
+   well-formed) lifts directly to `peq ... = true`.
+   (Before that commit == was structural; the statement was then proved key by key under the
+   no-empty-child invariant of the inputs -- see the history of this file.) *)
 From HV Require Import Coll.ModelGHT Coll.PVC Coll.PGHT Lattice.MorphGHT Lattice.PMorphGHT.
 
 Set Implicit Arguments.
-Local Arguments N.eqb : simpl never.
-
-(* ---------------------------------------------------------------- == on inner nodes, key by key *)
-Definition kw_rel (R : ght -> ght -> Prop) (ox oy : option ght) : Prop :=
-  match ox, oy with
-  | Some x, Some y => R x y
-  | None, None => True
-  | _, _ => False
-  end.
-
-Lemma cget_keys ch k : (exists c, cget ch k = Some c) <-> In k (map fst ch).
-Proof.
-  destruct (cget ch k) as [c|] eqn:G.
-  - split; [intros _|intros _; eauto]. apply cget_in in G. apply (in_map fst) in G. exact G.
-  - split; [intros [c e]; discriminate|]. intros i. apply cget_none in G. tauto.
-Qed.
-
-Lemma peq_inner_iff h ca cb :
-  NoDup (map fst ca) -> NoDup (map fst cb) ->
-  (peq (S h) (Inner ca) (Inner cb) = true <->
-   forall k, kw_rel (fun x y => peq h x y = true) (cget ca k) (cget cb k)).
-Proof.
-  intros nda ndb. cbn [peq]. split.
-  - destruct (Nat.eqb_spec (length ca) (length cb)) as [L|]; [cbn [negb]|discriminate].
-    rewrite forallb_forall. intros H.
-    assert (KI : incl (map fst ca) (map fst cb)).
-    { intros k i. apply in_map_iff in i as [[k' c] [e i]]. cbn in e. subst k'.
-      specialize (H _ i). cbn [fst] in H. destruct (cget cb k) as [o|] eqn:G; [|discriminate].
-      apply cget_in in G. apply (in_map fst) in G. exact G. }
-    assert (KJ : incl (map fst cb) (map fst ca)).
-    { apply NoDup_length_incl; [assumption|rewrite !map_length; lia|assumption]. }
-    intros k. unfold kw_rel. destruct (cget ca k) as [x|] eqn:Ga.
-    + pose proof (cget_in _ _ Ga) as i. specialize (H _ i). cbn [fst] in H.
-      destruct (cget cb k) as [o|]; [|discriminate]. rewrite Ga in H. exact H.
-    + destruct (cget cb k) as [o|] eqn:Gb; [|exact I].
-      apply cget_none in Ga. apply Ga, KJ. apply cget_in in Gb. apply (in_map fst) in Gb. exact Gb.
-  - intros H.
-    assert (KK : forall k, In k (map fst ca) <-> In k (map fst cb)).
-    { intros k. rewrite <- !cget_keys. specialize (H k). unfold kw_rel in H.
-      destruct (cget ca k), (cget cb k); split; intros [c e]; try discriminate; try contradiction; eauto. }
-    assert (L : length ca = length cb).
-    { rewrite <- (map_length fst ca), <- (map_length fst cb). apply Nat.le_antisymm;
-        apply NoDup_incl_length; try assumption; intros k i; apply KK; assumption. }
-    rewrite L, Nat.eqb_refl. cbn [negb]. apply forallb_forall. intros [k c] i. cbn [fst].
-    specialize (H k). unfold kw_rel in H. rewrite (in_cget _ _ _ nda i) in *.
-    destruct (cget cb k) as [o|]; [exact H|contradiction].
-Qed.
-
-(* == is reflexive on weakly well-formed tries *)
-Lemma peq_refl h : forall d t, wfw h d t -> peq h t t = true.
-Proof.
-  induction h as [|h IH]; intros d t W.
-  - destruct t as [rows|]; [|contradiction]. cbn in *.
-    rewrite (hs_eq_spec (nodup_Rset W) (nodup_Rset W)). apply set_eqb_spec. reflexivity.
-  - destruct t as [|ch]; [contradiction|]. destruct W as [nd F].
-    apply (@peq_inner_iff h ch ch nd nd). intros k. unfold kw_rel.
-    destruct (cget ch k) as [c|] eqn:G; [|exact I].
-    apply cget_in in G. rewrite Forall_forall in F. destruct (F _ G) as [Wc _]. apply (IH _ _ Wc).
-Qed.
-
-(* ---------------------------------------------------------------- children of join and merge, key by key *)
-Lemma join_cget h nk ca cb k :
-  cget (flat_map (fun kv : N * ght =>
-                    match cget ca (fst kv) with
-                    | Some va => [(fst kv, deep_join h nk va (snd kv))]
-                    | None => []
-                    end) cb) k =
-  match cget cb k, cget ca k with
-  | Some vb, Some va => Some (deep_join h nk va vb)
-  | _, _ => None
-  end.
-Proof.
-  induction cb as [|[k' vb] cb IH]; [reflexivity|]. cbn [flat_map fst snd cget].
-  destruct (N.eqb_spec k k') as [->|ne].
-  - destruct (cget ca k') as [va|] eqn:Ga; cbn [app cget].
-    + rewrite N.eqb_refl. reflexivity.
-    + rewrite IH. destruct (cget cb k'); reflexivity.
-  - destruct (cget ca k') as [va|]; cbn [app cget].
-    + destruct (N.eqb_spec k k'); [congruence|]. exact IH.
-    + exact IH.
-Qed.
-
-Lemma join_keys_nodup h nk ca cb :
-  NoDup (map fst cb) ->
-  NoDup (map fst (flat_map (fun kv : N * ght =>
-                              match cget ca (fst kv) with
-                              | Some va => [(fst kv, deep_join h nk va (snd kv))]
-                              | None => []
-                              end) cb)).
-Proof.
-  induction cb as [|[k vb] cb IH]; intros nd; [constructor|].
-  inversion nd as [|? ? n nd']; subst. cbn [flat_map fst snd].
-  destruct (cget ca k) as [va|]; cbn [app map fst]; [|apply IH, nd'].
-  constructor; [|apply IH, nd']. intros i. apply n. apply cget_keys in i as [c G].
-  rewrite join_cget in G. destruct (cget cb k) as [o|] eqn:Gb; [|discriminate].
-  apply cget_in in Gb. apply (in_map fst) in Gb. exact Gb.
-Qed.
-
-Lemma creplace_cget ch k c k0 :
-  cget (creplace ch k c) k0 =
-  if N.eqb k0 k then (match cget ch k with Some _ => Some c | None => None end) else cget ch k0.
-Proof.
-  induction ch as [|[k' c'] ch IH]; cbn [creplace cget].
-  - destruct (N.eqb k0 k); reflexivity.
-  - destruct (N.eqb_spec k k') as [->|ne]; cbn [cget].
-    + destruct (N.eqb_spec k0 k'); reflexivity.
-    + destruct (N.eqb_spec k0 k') as [->|ne0].
-      * destruct (N.eqb_spec k' k); [congruence|reflexivity].
-      * exact IH.
-Qed.
-
-Lemma cget_app ch k v k0 :
-  cget (ch ++ [(k, v)]) k0 =
-  match cget ch k0 with Some x => Some x | None => if N.eqb k0 k then Some v else None end.
-Proof.
-  induction ch as [|[k' c'] ch IH]; cbn [app cget]; [reflexivity|].
-  destruct (N.eqb k0 k'); [reflexivity|exact IH].
-Qed.
-
-Section MergeKeys.
-  Variable h : nat.
-  Let stepf := fun (acc : list (N * ght) * bool) (kv : N * ght) =>
-                 let '(ca, changed) := acc in
-                 match cget ca (fst kv) with
-                 | Some c => let '(c', chg) := merge h c (snd kv) in
-                             (creplace ca (fst kv) c', changed || chg)
-                 | None => (ca ++ [kv], true)
-                 end.
-
-  Lemma merge_fold_keys rest : forall cur chg,
-    NoDup (map fst cur) -> NoDup (map fst rest) ->
-    NoDup (map fst (fst (fold_left stepf rest (cur, chg)))) /\
-    forall k, cget (fst (fold_left stepf rest (cur, chg))) k =
-              match cget cur k, cget rest k with
-              | Some x, Some y => Some (fst (merge h x y))
-              | Some x, None => Some x
-              | None, Some y => Some y
-              | None, None => None
-              end.
-  Proof.
-    induction rest as [|[k' v] rest IHr]; intros cur chg ndc ndr; cbn [fold_left].
-    - cbn [fst]. split; [assumption|]. intros k. cbn [cget]. destruct (cget cur k); reflexivity.
-    - inversion ndr as [|? ? nk ndr']; subst.
-      assert (Estep : stepf (cur, chg) (k', v) =
-                      match cget cur k' with
-                      | Some c => let '(c', g) := merge h c v in (creplace cur k' c', chg || g)
-                      | None => (cur ++ [(k', v)], true)
-                      end) by reflexivity.
-      rewrite Estep. clear Estep.
-      assert (Rnone : cget rest k' = None) by (apply cget_none, nk).
-      destruct (cget cur k') as [c|] eqn:G.
-      + destruct (merge h c v) as [c' g] eqn:M.
-        destruct (IHr (creplace cur k' c') (chg || g)) as [nd2 C2];
-          [rewrite creplace_keys; assumption|assumption|].
-        split; [exact nd2|]. intros k. rewrite C2, creplace_cget. cbn [cget].
-        destruct (N.eqb_spec k k') as [->|ne].
-        * rewrite G, Rnone, M. reflexivity.
-        * reflexivity.
-      + assert (nin : ~ In k' (map fst cur)) by (apply cget_none, G).
-        destruct (IHr (cur ++ [(k', v)]) true) as [nd2 C2].
-        * rewrite map_app. cbn. apply NoDup_snoc; assumption.
-        * assumption.
-        * split; [exact nd2|]. intros k. rewrite C2, cget_app. cbn [cget].
-          destruct (N.eqb_spec k k') as [->|ne].
-          -- rewrite G, Rnone. reflexivity.
-          -- destruct (cget cur k); reflexivity.
-  Qed.
-End MergeKeys.
-
-Lemma merge_inner_keys h ca cb :
-  NoDup (map fst ca) -> NoDup (map fst cb) ->
-  exists cm, fst (merge (S h) (Inner ca) (Inner cb)) = Inner cm /\ NoDup (map fst cm) /\
-    forall k, cget cm k = match cget ca k, cget cb k with
-                          | Some x, Some y => Some (fst (merge h x y))
-                          | Some x, None => Some x
-                          | None, Some y => Some y
-                          | None, None => None
-                          end.
-Proof.
-  intros nda ndb. cbn [merge].
-  pose proof (@merge_fold_keys h cb ca false nda ndb) as L.
-  match goal with |- context [fold_left ?f cb (ca, false)] => set (res := fold_left f cb (ca, false)) in * end.
-  destruct res as [cm changed]. cbn [fst] in *. exists cm. destruct L as [nd C]. auto.
-Qed.
-
-(* ---------------------------------------------------------------- the deep join distributes, with == *)
-Definition LenOk (h d : nat) (t : ght) : Prop := Forall (fun x : row => h + d <= length x) (riter h t).
-
-Lemma child_facts h d ch k c :
-  wf (S h) d (Inner ch) -> LenOk (S h) d (Inner ch) -> cget ch k = Some c ->
-  wf h (S d) c /\ LenOk h (S d) c.
-Proof.
-  intros [nd F] L G. pose proof (cget_in _ _ G) as i. rewrite Forall_forall in F.
-  destruct (F _ i) as (W & _). split; [exact W|]. unfold LenOk in *. rewrite Forall_forall in *.
-  intros x ix. assert (j : In x (riter (S h) (Inner ch))) by (apply in_riter_inner; eauto).
-  specialize (L _ j). lia.
-Qed.
-
-Lemma wf_shape h d t : wf (S h) d t -> exists ch, t = Inner ch /\ NoDup (map fst ch).
-Proof. destruct t as [|ch]; [contradiction|]. intros [nd _]. eauto. Qed.
 
 Theorem deep_join_distrib_peq h : forall d nk a da b db,
   wf h d a -> wf h d da -> wf h d b -> wf h d db ->
-  LenOk h d a -> LenOk h d da -> LenOk h d b -> LenOk h d db ->
+  Forall (fun x : row => h + d <= length x) (riter h a) ->
+  Forall (fun x : row => h + d <= length x) (riter h da) ->
+  Forall (fun x : row => h + d <= length x) (riter h b) ->
+  Forall (fun x : row => h + d <= length x) (riter h db) ->
   peq h (deep_join h nk (fst (merge h a da)) b)
         (fst (merge h (deep_join h nk a b) (deep_join h nk da b))) = true /\
   peq h (deep_join h nk a (fst (merge h b db)))
         (fst (merge h (deep_join h nk a b) (deep_join h nk a db))) = true.
 Proof.
-  induction h as [|h IH]; intros d nk a da b db Wa Wda Wb Wdb La Lda Lb Ldb.
-  - unfold LenOk in *. cbn [Nat.add] in *. apply (@valtype_product_distrib d nk a da b db Wa Wda Wb Wdb); assumption.
-  - destruct (@wf_shape h d _ Wa) as (ca & -> & nda), (@wf_shape h d _ Wda) as (cda & -> & ndda),
-             (@wf_shape h d _ Wb) as (cb & -> & ndb), (@wf_shape h d _ Wdb) as (cdb & -> & nddb).
-    (* outputs of joins of two well-formed children are weakly well-formed *)
-    assert (JW : forall x y, wf h (S d) x -> wf h (S d) y -> LenOk h (S d) x -> LenOk h (S d) y ->
-                             peq h (deep_join h nk x y) (deep_join h nk x y) = true).
-    { intros x y Wx Wy Lx Ly. destruct (deep_join_spec h (S d) nk x y Wx Wy Lx Ly) as [W _].
-      apply (peq_refl h (S d) _ W). }
-    split.
-    + (* left argument *)
-      destruct (@merge_inner_keys h _ _ nda ndda) as (cm & Em & ndm & Cm).
-      rewrite Em. cbn [deep_join].
-      set (gX := fun kv : N * ght => match cget cm (fst kv) with
-                                    | Some va => [(fst kv, deep_join h nk va (snd kv))] | None => [] end).
-      set (gA := fun kv : N * ght => match cget ca (fst kv) with
-                                    | Some va => [(fst kv, deep_join h nk va (snd kv))] | None => [] end).
-      set (gD := fun kv : N * ght => match cget cda (fst kv) with
-                                    | Some va => [(fst kv, deep_join h nk va (snd kv))] | None => [] end).
-      pose proof (@join_keys_nodup h nk cm _ ndb) as ndX. fold gX in ndX.
-      pose proof (@join_keys_nodup h nk ca _ ndb) as ndA. fold gA in ndA.
-      pose proof (@join_keys_nodup h nk cda _ ndb) as ndD. fold gD in ndD.
-      destruct (@merge_inner_keys h _ _ ndA ndD) as (cy & Ey & ndy & Cy).
-      rewrite Ey. apply (@peq_inner_iff h _ _ ndX ndy). intros k.
-      unfold gX. rewrite join_cget, Cy, Cm. unfold gA, gD. rewrite !join_cget.
-      unfold kw_rel.
-      destruct (cget cb k) as [vb|] eqn:Gb; [|exact I].
-      destruct (@child_facts h d _ k _ Wb Lb Gb) as [Wvb Lvb].
-      destruct (cget ca k) as [x|] eqn:Ga, (cget cda k) as [y|] eqn:Gd; try exact I.
-      * destruct (@child_facts h d _ k _ Wa La Ga) as [Wx Lx], (@child_facts h d _ k _ Wda Lda Gd) as [Wy Ly].
-        apply (IH (S d) nk x y vb vb); assumption.
-      * destruct (@child_facts h d _ k _ Wa La Ga) as [Wx Lx]. apply JW; assumption.
-      * destruct (@child_facts h d _ k _ Wda Lda Gd) as [Wy Ly]. apply JW; assumption.
-    + (* right argument *)
-      destruct (@merge_inner_keys h _ _ ndb nddb) as (cm & Em & ndm & Cm).
-      rewrite Em. cbn [deep_join].
-      set (gA := fun kv : N * ght => match cget ca (fst kv) with
-                                    | Some va => [(fst kv, deep_join h nk va (snd kv))] | None => [] end).
-      pose proof (@join_keys_nodup h nk ca _ ndm) as ndX. fold gA in ndX.
-      pose proof (@join_keys_nodup h nk ca _ ndb) as ndB. fold gA in ndB.
-      pose proof (@join_keys_nodup h nk ca _ nddb) as ndD. fold gA in ndD.
-      destruct (@merge_inner_keys h _ _ ndB ndD) as (cy & Ey & ndy & Cy).
-      rewrite Ey. apply (@peq_inner_iff h _ _ ndX ndy). intros k.
-      unfold gA. rewrite join_cget, Cy, Cm. unfold gA. rewrite !join_cget. unfold kw_rel.
-      destruct (cget ca k) as [x|] eqn:Ga.
-      * destruct (@child_facts h d _ k _ Wa La Ga) as [Wx Lx].
-        destruct (cget cb k) as [vb|] eqn:Gb, (cget cdb k) as [vd|] eqn:Gd; try exact I.
-        -- destruct (@child_facts h d _ k _ Wb Lb Gb) as [Wvb Lvb], (@child_facts h d _ k _ Wdb Ldb Gd) as [Wvd Lvd].
-           apply (IH (S d) nk x x vb vd); assumption.
-        -- destruct (@child_facts h d _ k _ Wb Lb Gb) as [Wvb Lvb]. apply JW; assumption.
-        -- destruct (@child_facts h d _ k _ Wdb Ldb Gd) as [Wvd Lvd]. apply JW; assumption.
-      * destruct (cget cb k), (cget cdb k); exact I.
+  intros d nk a da b db Wa Wda Wb Wdb La Lda Lb Ldb. split.
+  - destruct (@deep_join_distrib_l h d nk a da b Wa Wda Wb La Lda Lb) as (WX & WY & M).
+    apply (peq_spec_w h d _ _ WX WY). split; intros z i; apply M, i.
+  - destruct (@deep_join_distrib_r h d nk a b db Wa Wb Wdb La Lb Ldb) as (WX & WY & M).
+    apply (peq_spec_w h d _ _ WX WY). split; intros z i; apply M, i.
 Qed.
